@@ -348,3 +348,113 @@ def render_width(spec, trait, ty):
         w = spec["width"] or 0
         return (max(1, w), max(hi, w))
     return None
+
+
+# ----------------------------------------------------------------------------- byte-string matches known at a block
+
+def taken_edges(b, site_bb):
+    """(guard block, successor) pairs such that the edge dominates site_bb."""
+    out = []
+    for g in sorted(b.dom.get(site_bb, ())):
+        t = b.term(g)
+        if t["k"] != "switch":
+            continue
+        succs = [x for _, x in t["tg"]] + [t["else"]]
+        for s in set(succs):
+            if succs.count(s) == 1 and (s == site_bb or b.dominates(s, site_bb)) and len(b.pred[s]) == 1:
+                out.append((g, s))
+    return out
+
+
+def slice_matches(b, site_bb):
+    """byte strings a slice-typed local is known to equal at site_bb, from lowered slice patterns
+    (len == N followed by per-index switches) and from `==`/has_type style calls: {local or term: bytes}."""
+    lens = {}
+    elems = {}
+    out = {}
+    for g, s in taken_edges(b, site_bb):
+        t = b.term(g)
+        d = t["d"]
+        p = op_place(d)
+        val = None
+        for v, x in t["tg"]:
+            if x == s:
+                val = int(v)
+        if p is not None and p["p"] and isinstance(p["p"][-1], dict) and "cidx" in p["p"][-1] and not p["p"][-1]["end"] and val is not None:
+            elems.setdefault(p["l"], {})[p["p"][-1]["cidx"]] = val
+            continue
+        # bool conditions
+        if t["dty"] == "bool":
+            truth = (t["else"] == s)
+            dd = b.def_rv(d)
+            if dd and dd[2] == "rv" and dd[3]["k"] == "bin" and dd[3]["op"] == "Eq" and truth:
+                a, c = dd[3]["a"], dd[3]["b"]
+                ka = const_int(op_const(b.resolve_copy(c)) or {}) if op_const(b.resolve_copy(c)) else None
+                da = b.def_rv(a)
+                if ka is not None and da and da[2] == "rv" and da[3]["k"] == "un" and da[3]["op"] == "PtrMetadata":
+                    lp = op_place(b.resolve_copy(da[3]["o"]))
+                    if lp is not None and not lp["p"]:
+                        lens[lp["l"]] = ka
+            elif dd and dd[2] == "call" and truth:
+                nm = dd[3]["f"].get("fn") or ""
+                short = nm.rsplit("::", 1)[-1]
+                if short in ("eq", "has_type", "starts_with", "ends_with") and len(dd[3]["args"]) == 2:
+                    kb = _const_bytes_through(b, dd[3]["args"][1])
+                    ka = _const_bytes_through(b, dd[3]["args"][0])
+                    other = dd[3]["args"][0] if kb is not None else dd[3]["args"][1]
+                    kk = kb if kb is not None else ka
+                    if kk is not None:
+                        out["%s:%s" % (short, b.oname(other, 3))] = kk
+            elif dd and dd[2] == "call" and not truth:
+                nm = dd[3]["f"].get("fn") or ""
+                short = nm.rsplit("::", 1)[-1]
+                if short == "ne" and len(dd[3]["args"]) == 2:
+                    kb = _const_bytes_through(b, dd[3]["args"][1])
+                    if kb is not None:
+                        out["eq:%s" % b.oname(dd[3]["args"][0], 3)] = kb
+    for l, n in lens.items():
+        e = elems.get(l, {})
+        if len(e) == n and set(e) == set(range(n)):
+            out["match:%s" % b.lname(l, 3)] = bytes(e[i] for i in range(n))
+    return out
+
+
+def blocks_assigning_ret_variant(b, variant):
+    """blocks in which `_0 = Adt::variant(..)` is assigned."""
+    out = []
+    for bi, si, s in b.stmts():
+        rv = s.get("rv")
+        if rv and "lhs" in s and s["lhs"]["l"] == 0 and not s["lhs"]["p"] and rv["k"] == "agg" and rv["kind"].get("var") == variant:
+            out.append((bi, s))
+    return out
+
+
+def stores_to_field(b, field, adt_suffix=None):
+    """(bb, idx, stmt) of every assignment whose destination place ends in `.field`."""
+    out = []
+    for bi, si, s in b.stmts():
+        if "lhs" not in s:
+            continue
+        pr = s["lhs"]["p"]
+        if pr and isinstance(pr[-1], dict) and pr[-1].get("n") == field and (adt_suffix is None or adt_matches(pr[-1]["adt"], adt_suffix)):
+            out.append((bi, si, s))
+    for c in b.calls:
+        pr = c.dest["p"]
+        if pr and isinstance(pr[-1], dict) and pr[-1].get("n") == field and (adt_suffix is None or adt_matches(pr[-1]["adt"], adt_suffix)):
+            out.append((c.bb, "T", c))
+    return out
+
+
+def calls_named(b, rx):
+    rx = re.compile(rx) if isinstance(rx, str) else rx
+    return [c for c in b.calls if rx.search(c.fn or "") or rx.search(c.name or "") or rx.search(c.full or "")]
+
+
+def before(b, x, y):
+    """does program point x = (bb, idx) always precede y on every path to y (block-level dominance + order)?"""
+    (xb, xi), (yb, yi) = x, y
+    xi = 10**6 if xi == "T" else xi
+    yi = 10**6 if yi == "T" else yi
+    if xb == yb:
+        return xi < yi
+    return b.dominates(xb, yb)
